@@ -36,7 +36,9 @@ RULE = ("cases = heap (1..5 nodes quick / ..6 thorough: attrs instances of 1..3 
         "plain base with own __str__) x cfg (attr.s/define/mutable/frozen, slots, defaults; ancestors defined in the same scope as the runtime class, in any "
         "enclosing scope of it (so its scope chain extends theirs), at module level or in a sibling function; the runtime "
         "subclass plain, attrs with repr=False (inherits the generated repr) or overriding; class-level history: nothing rendered before / an instance of every ancestor rendered first / the "
-        "runtime class first; repr callables with per-field, shared (`fmt`) or functools.wraps'd `__name__`) x fresh/warm thread x a fault "
+        "runtime class first; repr callables with per-field, shared (`fmt`) or functools.wraps'd `__name__`, as functions or as callable objects "
+        "that are truthy / have len 0 / bool False / a raising __bool__; tolerant callables that swallow whatever rendering "
+        "their value raises (model: catch node), combined with faults below and later back-references) x fresh/warm thread x a fault "
         "(before/after rendering) in one callable x thread scenario (0, 2, 3 threads meeting at a barrier inside a callable). "
         "A structured block enumerates cycle shapes x field kinds x every callable fault position first. Non-trivial = "
         "the rendering contains a cycle marker, a fault, an unset field, a callable or a thread scenario; distinct = distinct JSON case")
@@ -57,7 +59,7 @@ LEVEL_TEXT = (
     "C11_format(_general) (arbitrary field lists: Name(f=r, ...) over the repr-enabled fields in order, each r the independent "
     "rendering of the value below the instance; first failing field wins), C11_qualname (rsplit('>.',1)[-1] = scopes after the "
     "last function scope), C11_terminates/_top/C11_fuel_irrelevant (fuel |heap|+1 is never exhausted on any graph; more fuel "
-    "changes nothing), C11_cycle_dots(_path), C11_no_residue (every entry state; after return or raise), C11_repr_again_complete "
+    "changes nothing), C11_cycle_dots(_path), C11_no_residue (every entry state; after return or raise), C11_caught_fault_no_residue (a tolerant callable that swallows a fault from below leaves the marks of the enclosing instances intact), C11_repr_again_complete "
     "(after any history of renderings, raising or not), C11_str_same, C11_thread_independent/_pending/C11_threads_complete/"
     "C11_thread_finishes (any number of threads, every interleaving of atomic steps), C11_shared_state_breaks(+_keyerror) "
     "(decided witness schedules for one shared set), C11_shared_sequential_ok (the shared variant is correct without overlap), "
@@ -115,7 +117,30 @@ def fmt(v):          # the function the "wraps" callables claim to be
     return repr(v)
 
 
-def mk_callable(tag, recurse, name_mode="field"):
+class CallableObj:
+    """a repr callable that is an object, with scripted truthiness (`repr=` accepts any callable; whether the
+    callable is truthy must not matter)"""
+
+    def __init__(self, fn, truth):
+        self.fn, self.truth = fn, truth
+        self.__name__ = fn.__name__
+        self.__qualname__ = fn.__qualname__
+
+    def __call__(self, v):
+        return self.fn(v)
+
+    def __len__(self):
+        if self.truth == "len0":
+            return 0
+        return 3
+
+    def __bool__(self):
+        if self.truth == "boolRaise":
+            raise TypeError("truth value of a formatter asked for")
+        return self.truth not in ("boolF", "len0")
+
+
+def mk_callable(tag, recurse, tol=False, name_mode="field"):
     """the fault mode is an attribute of the function object, set per case (classes are cached).
     `name_mode`: what the callable's `__name__` is -- "field": unique per field; "same": every callable of the
     class is called `fmt` (closures of one factory); "wraps": functools.wraps wrappers of one function.  The
@@ -132,7 +157,19 @@ def mk_callable(tag, recurse, name_mode="field"):
         fault = repr_cb.fault
         if ARMED[0] and fault == "pre":
             _raise(tag)
-        s = tag + "<" + repr(v) + ">" if recurse else tag
+        if not recurse:
+            s = tag
+        elif tol:
+            # tolerant formatter: whatever rendering the value raises is swallowed
+            try:
+                inner = repr(v)
+            except (RecursionError, MemoryError):
+                raise          # never reached on a correct tree; keeps a runaway rendering linear instead of exponential
+            except BaseException:  # noqa: BLE001
+                inner = "!"
+            s = tag + "<" + inner + ">"
+        else:
+            s = tag + "<" + repr(v) + ">"
         if ARMED[0] and fault == "post":
             _raise(tag)
         return s
@@ -175,7 +212,9 @@ def _ib(f, cfg, cbs):
         kw["repr"] = False
     else:
         c = r["call"]
-        kw["repr"] = cbs[f["name"]] = mk_callable(c["tag"], c["recurse"], cfg.get("cbNames", "field"))
+        fn = cbs[f["name"]] = mk_callable(c["tag"], c["recurse"], c.get("tol", False), cfg.get("cbNames", "field"))
+        obj = cfg.get("cbObj", "func")
+        kw["repr"] = fn if obj == "func" else CallableObj(fn, obj)
     if not f["init"]:
         kw["init"] = False
         if f["name"] in cfg.get("dflt", []):
@@ -500,11 +539,24 @@ def _concurrent(root, idmap, warm, n):
     return outs, sync
 
 
+def _build_failed(case, e):
+    out = {"exc": {"k": "build:" + common.exc_kind(e)}}
+    return {"first": out, "res1": [], "again": out, "res2": [], "str": out, "res3": [],
+            "threads": [{"out": out, "residue": []} for _ in range(case["threads"])], "sync": "build-failed"}
+
+
 def observe(case):
     sw = sys.getswitchinterval()
     try:
         ABORT[0] = bool(case.get("abort", False))
-        objs = build_heap(case["heap"])
+        try:
+            objs = build_heap(case["heap"])
+        except RuntimeError as e:
+            if str(e).startswith("harness:"):
+                raise
+            return _build_failed(case, e)
+        except Exception as e:  # noqa: BLE001 -- attrs refused / crashed on a legitimate class: that is an observation
+            return _build_failed(case, e)
         root = objs[case["root"]]
         idmap = {}
         for i, o in enumerate(objs):
@@ -540,7 +592,7 @@ SCOPES = [
 ]
 CLS_NAMES = ["C", "D", "Node", "Pt"]
 BASE_CFG = {"api": "attr.s", "slots": None, "frozen": False, "plainSub": False, "strAt": 9, "dflt": [], "explicit_true": False,
-            "pre": "none", "cbNames": "field", "basePlace": "same", "subKind": "plain"}
+            "pre": "none", "cbNames": "field", "basePlace": "same", "subKind": "plain", "cbObj": "func"}
 
 
 def rand_cfg(rng, names):
@@ -556,6 +608,7 @@ def rand_cfg(rng, names):
         "cbNames": rng.choice(["field", "same", "same", "wraps"]),
         "basePlace": rng.choice(["same", "same", "same", "module", "sibling", 0, 1, 1, 2, 2]),
         "subKind": rng.choice(["plain", "plain", "norepr"]),
+        "cbObj": rng.choice(["func", "func", "func", "truthy", "len0", "boolF", "boolRaise"]),
     }
 
 
@@ -565,7 +618,8 @@ def rand_repr(rng, name, fault="no"):
         return "on"
     if r < 0.55:
         return "off"
-    return {"call": {"tag": "R" + name, "recurse": rng.random() < 0.65, "fault": fault}}
+    rc = rng.random() < 0.65
+    return {"call": {"tag": "R" + name, "recurse": rc, "fault": fault, "tol": rc and rng.random() < 0.35}}
 
 
 def rand_class(rng, idx):
@@ -576,7 +630,7 @@ def rand_class(rng, idx):
     fields = [{"name": n, "repr": rand_repr(rng, n), "init": rng.random() < 0.7} for n in names]
     if idx == 0 and fields and rng.random() < 0.6 and not any(isinstance(f["repr"], dict) for f in fields):
         f = rng.choice(fields)
-        f["repr"] = {"call": {"tag": "R" + f["name"], "recurse": True, "fault": "no"}}
+        f["repr"] = {"call": {"tag": "R" + f["name"], "recurse": True, "fault": "no", "tol": rng.random() < 0.3}}
     nl = rng.choice([1, 1, 2, 2, 3])
     cuts = sorted(rng.randint(0, k) for _ in range(nl - 1))
     layers, prev = [], 0
@@ -660,8 +714,9 @@ def _simple_class(fields, **kw):
 
 def structured(rng):
     """cycle shapes x field kinds x fault positions x fresh/warm, small and systematic"""
-    reprs = ["on", {"call": {"tag": "Ra", "recurse": True, "fault": "no"}},
-             {"call": {"tag": "Ra", "recurse": False, "fault": "no"}}]
+    reprs = ["on", {"call": {"tag": "Ra", "recurse": True, "fault": "no", "tol": False}},
+             {"call": {"tag": "Ra", "recurse": False, "fault": "no", "tol": False}},
+             {"call": {"tag": "Ra", "recurse": True, "fault": "no", "tol": True}}]
     other = _simple_class([{"name": "p", "repr": "on", "init": True}], name="D")
     for r, init, slots, warm in itertools.product(reprs, (True, False), (None, True), (False, True)):
         fa = {"name": "a", "repr": copy.deepcopy(r), "init": init}
@@ -723,9 +778,34 @@ def structured(rng):
                     cs["ovr"] = kind == "ovr"
                     heap = {"classes": [cs], "nodes": [{"inst": {"cls": 0, "vals": [["a", 0], ["b", 0]]}}]}
                     yield mk_case(heap, 0, rng.random() < 0.5)
+    # a fault below is swallowed by a tolerant callable of an enclosing instance, then a later field leads back
+    # to that instance (directly, through a list, through another instance): it must still be `...`
+    def call(tag, tol=False, fault="no", rc=True):
+        return {"call": {"tag": tag, "recurse": rc, "fault": fault, "tol": tol}}
+    for fault, back, two, abort, warm in itertools.product(("pre", "post"), ("direct", "list", "inst", "dict"), (False, True),
+                                                          (False, True), (False, True)):
+        outer = _simple_class([{"name": "a", "repr": call("Ra", tol=True), "init": True},
+                               {"name": "b", "repr": "on", "init": True}], name="Node")
+        inner = _simple_class([{"name": "p", "repr": call("Rp", fault=fault), "init": True},
+                               {"name": "q", "repr": "on", "init": True}], name="Child")
+        mid = _simple_class([{"name": "m", "repr": "on", "init": True}], name="Mid")
+        target = {"direct": 0, "list": 2, "inst": 3, "dict": 4}[back]
+        nodes = [{"inst": {"cls": 0, "vals": [["a", 1], ["b", target]]}},
+                 {"inst": {"cls": 1, "vals": [["p", 5], ["q", 0 if two else 5]]}},
+                 {"list": {"items": [0]}}, {"inst": {"cls": 2, "vals": [["m", 0]]}},
+                 {"dict": {"items": [["k", 0]]}}, {"atom": {"s": "7"}}]
+        yield mk_case({"classes": [outer, inner, mid], "nodes": nodes}, 0, warm, abort=abort)
+    # repr callables that are objects with scripted truthiness
+    for obj, nl, api, slots in itertools.product(("truthy", "len0", "boolF", "boolRaise"), (1, 2), ("attr.s", "define"), (None, True)):
+        fs = [{"name": "a", "repr": call("Ra"), "init": True}, {"name": "b", "repr": "on", "init": True},
+              {"name": "c", "repr": call("Rc", rc=False), "init": False}]
+        cs = _simple_class([], name="Fmt", str=True, plainStr=True)
+        cs["layers"] = [fs] if nl == 1 else [fs[:1], fs[1:]]
+        cs["cfg"].update(cbObj=obj, api=api, slots=slots)
+        yield mk_case({"classes": [cs], "nodes": [{"inst": {"cls": 0, "vals": [["a", 1], ["b", 1], ["c", 1]]}}, {"atom": {"s": "7"}}]}, 0, False)
     # callables that share a __name__: own + own, inherited + own, three of them
     for mode, nl, slots in itertools.product(("same", "wraps", "field"), (1, 2, 3), (None, True)):
-        fs = [{"name": n, "repr": {"call": {"tag": "R" + n, "recurse": rc, "fault": "no"}}, "init": True}
+        fs = [{"name": n, "repr": {"call": {"tag": "R" + n, "recurse": rc, "fault": "no", "tol": False}}, "init": True}
               for n, rc in (("a", True), ("b", False), ("c", True))]
         cs = _simple_class([], name="Rec")
         cs["layers"] = [fs] if nl == 1 else [fs[:1], fs[1:]] if nl == 2 else [fs[:1], fs[1:2], fs[2:]]
@@ -805,6 +885,9 @@ def dist(case, obs):
         "plainSub": any(c.get("plainSub") for c in cfgs),
         "pre": cfgs[0].get("pre") if cfgs else None,
         "cbNames": cfgs[0].get("cbNames") if cfgs else None,
+        "cbObj": cfgs[0].get("cbObj") if cfgs else None,
+        "tolerant": sum(1 for ci, li, fi in callable_slots(heap) if heap["classes"][ci]["layers"][li][fi]["repr"]["call"].get("tol")),
+        "swallowed": "!" in txt or "!" in (first.get("ok", {}).get("s", "") if "ok" in first else ""),
         "basePlace": _place_kind(heap["classes"][0]) if heap["classes"] else None,
         "subKind": (cfgs[0].get("subKind") if cfgs[0].get("plainSub") or heap["classes"][0]["ovr"] else "own-repr") if cfgs else None,
         "same_named_callables": max([sum(1 for f in all_fields(c) if isinstance(f["repr"], dict)) for c in heap["classes"]
@@ -877,6 +960,10 @@ def shrink(case):
                         nd["inst"]["vals"] = [kv for kv in nd["inst"]["vals"] if kv[0] != f["name"]]
                 yield dict(case, heap=h)
                 if isinstance(f["repr"], dict):
+                    if f["repr"]["call"].get("tol"):
+                        h = copy.deepcopy(heap)
+                        h["classes"][ci]["layers"][li][fi]["repr"]["call"]["tol"] = False
+                        yield dict(case, heap=h)
                     if f["repr"]["call"]["fault"] != "no":
                         h = copy.deepcopy(heap)
                         h["classes"][ci]["layers"][li][fi]["repr"]["call"]["fault"] = "no"
